@@ -96,7 +96,7 @@ func ruleC09(p *Prog, r *Res) {
 			return true
 		})
 		r.Check(fatal == "", ruleA, jf.Key()+" has no non-returning call", p.Pos(jf.Node()), "no panic/log.Fatal on the job's own paths", "the job can end at "+fatal+" without posting its completion")
-		if posted := ctx.postedIn(jf); len(posted) == 1 {
+		if posted := ctx.completionsIn(jf); len(posted) == 1 {
 			completion[jf] = posted[0]
 		}
 	}
